@@ -292,6 +292,71 @@ func runC17(c *Ctx) {
 		sort.Strings(names)
 		c.verdict(nTypes >= 5 && len(bad) == 0, "module | Stop methods do not wait for goroutines that Start never spawned", "", fmt.Sprintf("%d types with Start and Stop (%s); %d wait(s) on goroutine-closed channels, each behind a test of the started flag", nTypes, join(names), nWaits), join(bad))
 	})
+	c.rule("C17.O7", "Stop returns exactly when everything it counted has ended: "+waitGroupGrowthDoc, func() { c.waitGroupGrowth(4) })
+	c.rule("C17.X2", "every caller blocked on a batch is released at shutdown, whichever way the dispatcher leaves: "+verdictPerBatchDoc, func() { c.verdictPerBatch() })
+	c.rule("C17.O8", "the batch manager notices a shutdown on every round: UtxoScanner.Stop waits for batchManager to return, and a round that finds the queue non-empty never reaches the wait on the condition variable; so every way round the manager's loop passes a poll of s.quit (a select with a <-s.quit arm) - left to the scan's own error value, a scan that fails for any other reason while requests remain queued sends the manager round and round, and Stop, and ChainService.Stop with it, never returns", func() {
+		fn := c.fn("(*neutrino.UtxoScanner).batchManager")
+		quit := c.field("neutrino", "UtxoScanner", "quit")
+		scan := c.method("neutrino", "UtxoScanner", "scanFromHeight")
+		scans := find(fn, callTo(scan))
+		var h *ssa.BasicBlock
+		for _, x := range scans {
+			// outermost loop around the scan
+			for b := ir.LoopHeaderOf(x.Block()); b != nil; {
+				h = b
+				var outer *ssa.BasicBlock
+				for _, p := range b.Preds {
+					if lh := ir.LoopHeaderOf(p); lh != nil && lh != b && ir.LoopBlocks(lh)[b] {
+						outer = lh
+					}
+				}
+				b = outer
+			}
+		}
+		construct := c.nm(fn) + " | every round of the manager's loop polls s.quit"
+		if h == nil {
+			c.fail(construct, c.P.Pos(fn.Pos()), "the scan is not started from inside a loop")
+			return
+		}
+		poll := func(in ssa.Instruction) bool {
+			sel, ok := in.(*ssa.Select)
+			return ok && selectHasRecv(sel, loadsField(quit))
+		}
+		back := ir.BackEdgesTo(h)
+		type pt struct {
+			b   *ssa.BasicBlock
+			idx int
+		}
+		seen := map[*ssa.BasicBlock]bool{}
+		work := []pt{{h, 0}}
+		var bad []string
+		for len(work) > 0 {
+			p := work[len(work)-1]
+			work = work[:len(work)-1]
+			stopped := false
+			for _, in := range p.b.Instrs[p.idx:] {
+				if poll(in) {
+					stopped = true
+					break
+				}
+			}
+			if stopped {
+				continue
+			}
+			for i, sc := range p.b.Succs {
+				if back[ir.Edge{From: p.b, Succ: i}] {
+					bad = append(bad, "the next round is reached from the block ending at "+c.at(p.b.Instrs[len(p.b.Instrs)-1])+" without a poll of s.quit")
+					continue
+				}
+				if !seen[sc] {
+					seen[sc] = true
+					work = append(work, pt{sc, 0})
+				}
+			}
+		}
+		sort.Strings(bad)
+		c.verdict(len(bad) == 0, construct, c.at(h.Instrs[0]), "every way round the loop passes select { case <-s.quit: ... }", join(uniq(bad)), c.ats(scans)...)
+	})
 	c.rule("C17.G1", "the data directory can be reopened after a Stop in mid-reorganisation: "+rollbackReachesTargetDoc, func() { c.rollbackReachesTarget() })
 	c.rule("C17.P3", "Stop completes: "+lockOrderDoc, func() { c.lockOrder() })
 	c.rule("C17.P2", "Stop completes: "+eventsUnlockedDoc, func() { c.eventsUnlocked() })
